@@ -182,7 +182,7 @@ class LockAnalysis:
             return False
         if f.kind == "lambda":
             role = self.cg.lambda_role.get(f.name, {})
-            return role.get("role") in ("cv_pred", "sync_arg", "immediate")
+            return role.get("role") in ("cv_pred", "sync_arg", "immediate", "local")
         if f.kind in ("ctor", "dtor"):
             return False
         if f.access in ("private", "protected"):
@@ -242,6 +242,20 @@ class LockAnalysis:
             encl = f.enclosing
             if encl is None:
                 return []
+            if role.get("role") == "local":
+                # a lambda kept in a local variable: every use of that variable is a call site
+                # (direct invocation, or handing it to a condition-variable wait as predicate)
+                out = []
+                d = role.get("d")
+                for n in encl.nodes.values():
+                    if n.get("k") in ("call", "mcall", "opcall", "ctor"):
+                        for a in n.get("args", []):
+                            for x in ([a] + [y for y in (a.get("args") or []) if isinstance(y, dict)]):
+                                if isinstance(x, dict) and x.get("k") == "var" and x.get("d") == d:
+                                    e = encl.elem_for(n)
+                                    if e is not None:
+                                        out.append((encl, e))
+                return out
             call = role.get("call")
             if role.get("role") == "immediate":
                 call = encl.nodes.get(encl.parent.get(f.lambda_node["id"]))
